@@ -719,8 +719,9 @@ theorem replay_realised {s0 : Enc} (h0 : Run P c aL aS nL n closable [] s0) (hle
           * stream sources (C20 `stream_eq_buffer` gives the same packets call by call for a healthy stream; the fault
             schedule of `Sched` has no `BlockEnc.Session` counterpart here), empty objects (`nSym = 0` / the rateless
             empty block: one `emptyPkt` resp. `parity` packets, `Props.C08.empty_object_*`), FDT slots;
-          * `N = ⌈len / E⌉` for No-Code (here `N` is the length of the complete transfer; that this is the number of
-            source symbols is `Props.C08.source_once` + `repair_bounded` with parity 0, not restated).
+          * `N = ⌈len / E⌉` is proved for codecs without repair symbols (`Lemmas/SchedBencLen.lean`:
+            `complete_length_no_repair`, `describes_nocode_divCeil`); for codecs WITH repair symbols the count is not
+            computed (`Describes` stays a hypothesis there).
 -/
 
 end Flute.SchedBenc
